@@ -216,7 +216,7 @@ class LoopSpec:
     """contract-side configuration of a cut loop: invariant (callable(interp, env) -> z3 Bool or list)"""
 
     def __init__(self, inv=None, modes=('iter', 'exit'), havoc_extra=(), keep=(), at_start=None, at_end=None,
-                 at_exit=None, at_break=None, decreases=None, unroll=None):
+                 at_exit=None, at_break=None, decreases=None, unroll=None, at_entry=None):
         self.inv = inv
         self.modes = modes
         self.havoc_extra = havoc_extra
@@ -227,6 +227,7 @@ class LoopSpec:
         self.at_break = at_break
         self.decreases = decreases
         self.unroll = unroll
+        self.at_entry = at_entry      # (interp, env): state on arrival at the loop, before the cut
 
 
 class Engine:
@@ -1103,6 +1104,8 @@ class Interp:
         # invariant must hold on entry
         if spec.inv is not None:
             self.emit(Ev('InvCheck', label=label, when='entry', formula=spec.inv(self, env)))
+        if spec.at_entry is not None:
+            spec.at_entry(self, env)
 
         def feas(i):
             return True
